@@ -59,6 +59,29 @@ pub fn field_verdict(l: &Layout, f: &Field) -> Verdict {
     if f.ranges.is_empty() {
         return Verdict::Unspecified("no range".into());
     }
+    if let Some(h) = &f.huge {
+        // adversarial literals, judged with 128-bit arithmetic
+        let base = l.base_bits as u128;
+        match h.part.as_str() {
+            "stride" => {
+                let (count, top0) = match &f.array {
+                    Some(a) => (a.count as u128, f.ranges.iter().map(|r| r.hi).max().unwrap() as u128),
+                    None => return Verdict::Unspecified("stride on a non-array".into()),
+                };
+                if count >= 2 && top0 + (count - 1) * (h.value as u128) >= base {
+                    return Verdict::Invalid(vec!["R4-above-base".into()]);
+                }
+                return Verdict::Unspecified("huge stride that fits".into());
+            }
+            "hi0" => {
+                if (h.value as u128) >= base && (h.value as u128) >= f.ranges[0].lo as u128 {
+                    return Verdict::Invalid(vec!["R4-above-base".into()]);
+                }
+                return Verdict::Unspecified("huge bound that fits".into());
+            }
+            _ => return Verdict::Unspecified("unknown adversarial literal".into()),
+        }
+    }
     if !f.list && f.ranges.len() != 1 {
         return Verdict::Unspecified("several ranges outside a list".into());
     }
